@@ -129,6 +129,10 @@ func buildC17(t *Tree, cell c17Cell) *Scenario {
 	sc.Setup = []Op{{Kind: "newtemplate", Cfg: &cfg}}
 	if cell.Reg {
 		sc.Setup = []Op{{Kind: "register", Recv: "str", Name: "c17late", Fn: 3}, {Kind: "newtemplate", Cfg: &cfg}}
+		if cell.FP%2 == 0 {
+			// ... or after the load (the documented order: NewTemplate, then Register*Func)
+			sc.Setup = []Op{{Kind: "newtemplate", Cfg: &cfg}, {Kind: "register", Recv: "str", Name: "c17late", Fn: 3}}
+		}
 	}
 	name := cell.Page
 	data := t.Data
